@@ -98,7 +98,7 @@ func VerifC11Atomic() {
 	nd.Assert(vPut(c, vItem{"p": vS("k"), "n": vN("0")}) == nil, "setup-put")
 	nd.Track(c)
 	tbl := aws.String(vTbl)
-	switch nd.Choice("pair", 12) {
+	switch nd.Choice("pair", 14) {
 	case 0: // N concurrent ADD 1 yield N
 		add := func() {
 			c.UpdateItem(vCtx, &dynamodb.UpdateItemInput{TableName: tbl, Key: vItem{"p": vS("k")}, UpdateExpression: aws.String("ADD n :one"), ExpressionAttributeValues: vItem{":one": vN("1")}})
@@ -196,6 +196,30 @@ func VerifC11Atomic() {
 		got, _ := vGet(c, vItem{"p": vS("k")})
 		n, _ := got["n"].(*types.AttributeValueMemberN)
 		nd.Assert(len(got) == 0 || (n != nil && n.Value == "1"), "C11-clear-vs-add-serializable")
+	case 12: // a batch read (several keys, several internal steps) racing with an update: both complete, the read sees
+		// the item before or after the update
+		var out *dynamodb.BatchGetItemOutput
+		var e1, e2 error
+		nd.Par(func() {
+			out, e1 = c.BatchGetItem(vCtx, &dynamodb.BatchGetItemInput{RequestItems: map[string]types.KeysAndAttributes{vTbl: {Keys: []vItem{{"p": vS("k")}, {"p": vS("k")}}}}})
+		}, func() {
+			_, e2 = c.UpdateItem(vCtx, &dynamodb.UpdateItemInput{TableName: tbl, Key: vItem{"p": vS("k")}, UpdateExpression: aws.String("ADD n :one"), ExpressionAttributeValues: vItem{":one": vN("1")}})
+		})
+		nd.Assert(e1 == nil && e2 == nil, "C11-batchget-vs-update-both-complete")
+		if e1 == nil {
+			for _, it := range out.Responses[vTbl] {
+				n, _ := it["n"].(*types.AttributeValueMemberN)
+				nd.Assert(n != nil && (n.Value == "0" || n.Value == "1"), "C11-batchget-sees-a-committed-state")
+			}
+		}
+	case 13: // two reads through the same index at the same time: each returns the whole index
+		var o1, o2 *dynamodb.ScanOutput
+		var e1, e2 error
+		nd.Assert(AddIndex(vCtx, c, vTbl, vIdx, "g", "") == nil, "setup-addindex")
+		nd.Assert(vPut(c, vItem{"p": vS("k"), "n": vN("0"), "g": vS("x")}) == nil && vPut(c, vItem{"p": vS("j"), "n": vN("0"), "g": vS("y")}) == nil, "setup-put-indexed")
+		nd.Par(func() { o1, e1 = c.Scan(vCtx, &dynamodb.ScanInput{TableName: tbl, IndexName: aws.String(vIdx)}) },
+			func() { o2, e2 = c.Scan(vCtx, &dynamodb.ScanInput{TableName: tbl, IndexName: aws.String(vIdx)}) })
+		nd.Assert(e1 == nil && e2 == nil && len(o1.Items) == 2 && len(o2.Items) == 2, "C11-concurrent-index-reads-return-the-whole-index")
 	case 11: // two conditional updates taking a lock attribute: exactly one wins
 		var e1, e2 error
 		take := func(e *error, who string) func() {
